@@ -192,3 +192,86 @@ def run(ctx, rule="EAM", entries=ENTRIES):
         may_mutate=sorted(short(prog.fns[i].name) for i, v in S.mut.items() if v)[:80],
         may_arg_error=sorted(short(prog.fns[i].name) for i, v in S.err.items() if v)[:80])
     return S
+
+
+def pre_valid(ctx, rule="PRE-VALID"):
+    """mechanical support for the create_table / drop_table EAM exceptions"""
+    from ..lib import has_fact, symcalls
+    from .errs import classify
+    prog = ctx.prog
+    ctx.rule(rule, "create_table_with_name: for each catalog insert (into _Columns, _Tables, _Validation) a check_rows call on the matching make_*_table "
+                   "schema and on the same row vector dominates every mutation and is propagated with `?`; the _Validation insert (create) and delete (drop) "
+                   "are guarded by tables.contains_key(_Validation)")
+    S = Summaries(prog)
+    f = prog.fn("msi::internal::package::Package::<F>::create_table_with_name")
+    Sy = Sym(prog, f)
+    du = DefUse(f)
+    dom = cfg.dominators(f)
+    muts = S.mutation_blocks(f)
+    cs = symcalls(prog, f, Sy)
+    checks = [c for c in cs if c[1] == "msi::internal::package::check_rows"]
+    mk = {"_Columns": "make_columns_table", "_Tables": "make_tables_table", "_Validation": "make_validation_table"}
+
+    def rows_id(v):
+        m = re.findall(r"call@\d+:[^,)]*", v)
+        return m[-1] if m else v
+    n = 0
+    for (b, nme, args, t) in cs:
+        if nme != "msi::internal::package::Package::<F>::insert_rows":
+            continue
+        lab = label(prog, f, t, du).strip("[]")
+        n += 1
+        from ..lib import call_of
+        qn, qargs = call_of(Sy, args[1])
+        rid = rows_id(qargs[1]) if qn and qn.endswith("Insert::rows") and len(qargs) == 2 else None
+        hit = [c for c in checks if mk.get(lab, "?") in c[2][0] and rid and rows_id(c[2][1]) == rid]
+        ok = len(hit) == 1
+        why = "no check_rows(%s(..), <same rows>) call" % mk.get(lab, "?")
+        if ok:
+            c = hit[0]
+            tags = classify(f, du, c[3]["dest"]["l"])
+            ok = "propagated" in tags and all(c[0] in dom.get(mb, ()) for mb in muts)
+            why = "check_rows result %s; dominates all %d mutation blocks: %s" % (sorted(tags), len(muts), all(c[0] in dom.get(mb, ()) for mb in muts))
+        ctx.check(ok, rule, "create_table: rows for %s are pre-validated" % lab, why,
+                  "create_table inserts into %s without a dominating, propagated check_rows on the same rows and schema (%s): a late refusal leaves the table half created" % (lab, why),
+                  f.loc(t["sp"]), fn=f.name, key="%s|create|%s" % (rule, lab))
+        if lab == "_Validation":
+            ctx.check(has_fact(Sy, b, r"BTreeMap::<K, V, A>::contains_key\(&\*p1\.tables,.*_Validation", True), rule, "create_table: _Validation insert is optional", "",
+                      "the _Validation insert is not guarded by tables.contains_key(_Validation): a package without that table fails after the other inserts", f.loc(t["sp"]), fn=f.name)
+    ctx.floor(rule, "catalog inserts in create_table_with_name", n, 3)
+    g = prog.fn("msi::internal::package::Package::<F>::drop_table")
+    Sg = Sym(prog, g)
+    dg = DefUse(g)
+    n = 0
+    for (b, nme, args, t) in symcalls(prog, g, Sg):
+        if nme == "msi::internal::package::Package::<F>::delete_rows" and label(prog, g, t, dg) == "[_Validation]":
+            n += 1
+            ctx.check(has_fact(Sg, b, r"BTreeMap::<K, V, A>::contains_key\(&\*p1\.tables,.*_Validation", True), rule, "drop_table: _Validation delete is optional", "",
+                      "drop_table deletes from _Validation without testing that the table exists (NotFound after earlier mutations for files without it)", g.loc(t["sp"]), fn=g.name)
+    ctx.floor(rule, "_Validation delete in drop_table", n, 1)
+
+
+def m_tgt(ctx, rule="M-TGT"):
+    """frame condition: a DML statement writes only the named table's stream"""
+    from ..lib import symcalls
+    prog = ctx.prog
+    ctx.rule(rule, "each of Insert::exec, Update::exec, Delete::exec issues exactly one create_stream, whose name is Table::stream_name() of the table looked up "
+                   "under self.table_name, hands that stream to write_rows of the same table, and issues no remove_stream")
+    for name in ("Insert", "Update", "Delete"):
+        f = prog.fn("msi::internal::query::%s::exec" % name)
+        S = Sym(prog, f)
+        cs = symcalls(prog, f, S)
+        cr = [c for c in cs if c[1] == "cfb::CompoundFile::<F>::create_stream"]
+        rm = [c for c in cs if re.search(r"cfb::CompoundFile::<F>::remove_", c[1])]
+        wr = [c for c in cs if c[1] == "msi::internal::table::Table::write_rows"]
+        ok = len(cr) == 1 and not rm and len(wr) == 1
+        detail = ""
+        if ok:
+            from ..lib import call_of
+            cn, cargs = call_of(S, cr[0][2][1])
+            nm = "%s(%s)" % (cn, ",".join(cargs))
+            ok = cn is not None and cn.endswith("Table::stream_name") and re.search(r"BTreeMap::<K, V, A>::get\(&\*p4,&p1\.table_name\)@Some\.0", nm) is not None
+            detail = nm[:160]
+            ok = ok and re.search(r"BTreeMap::<K, V, A>::get\(&\*p4,&p1\.table_name\)@Some\.0", wr[0][2][0]) is not None
+        ctx.check(ok, rule, "%s::exec" % name, detail, "%s::exec: create_stream x%d (name %s), remove x%d, write_rows x%d - not exactly one rewrite of the named table's own stream" % (
+            name, len(cr), detail, len(rm), len(wr)), f.loc(), fn=f.name, key="%s|%s" % (rule, name))
